@@ -402,18 +402,18 @@ class Gen:
         r = self.r
         L = self.lines
         L.append("hopen %d %d %d" % (F, r.choice([4, 16]), r.choice([0, 1])))
-        L.append("put %d 1103 65535 %s" % (F, hexs(rbytes(r, 3))))
-        self.any.append((1103, 65535))
+        L.append("put %d 1106 65535 %s" % (F, hexs(rbytes(r, 3))))
+        self.any.append((1106, 65535))
         refs = sorted(r.sample(range(2, 9), r.choice([2, 3, 4])), reverse=True)
         for rf in refs:
-            L.append("put %d 1102 %d %s" % (F, rf, hexs(rbytes(r, 4))))
-            self.plain.append((1102, rf))
-            self.any.append((1102, rf))
-            self.refs[1102] = max(self.refs.get(1102, 0), rf)
+            L.append("put %d 1105 %d %s" % (F, rf, hexs(rbytes(r, 4))))
+            self.plain.append((1105, rf))
+            self.any.append((1105, rf))
+            self.refs[1105] = max(self.refs.get(1105, 0), rf)
         for _ in range(r.choice([2, 3, 4])):
             k = r.random()
-            if k < 0.3 and len([e for e in self.plain if e[0] == 1102 and e not in self.members]) > 1:
-                t, rf = r.choice([e for e in self.plain if e[0] == 1102 and e not in self.members])
+            if k < 0.3 and len([e for e in self.plain if e[0] == 1105 and e not in self.members]) > 1:
+                t, rf = r.choice([e for e in self.plain if e[0] == 1105 and e not in self.members])
                 L.append("del %d %d %d" % (F, t, rf))
                 self.plain.remove((t, rf))
                 self.any.remove((t, rf))
@@ -1072,10 +1072,30 @@ def run(ctx):
         corpus += split_histories([l for l in open(os.path.join(cdir, fn)).read().splitlines() if l.strip() and not l.startswith("#")])
     nh = 100 if ctx.tier == "quick" else 2500
     hists = corpus + [gen_history(r, "g%d" % i) for i in range(nh)]
-    wd, rc, per, asan = run_R(ctx, hists, "main")
-    rcs, per_s = run_S(ctx, wd, hists, per)
-    if rcs != 0:
-        raise vc.BuildError("h4read failed rc=%d" % rcs)
+    # batches of histories run side by side (library harness, then h4read on the files it left), 4 at a time
+    ctx.harness("drive_fmt", ["drive_fmt.c"])
+    ctx.model("fmt_read", ["fmt_main.ml"], ["fmt_spec"])
+    bsz = 30 if ctx.tier == "quick" else 100
+    batches = [hists[i:i + bsz] for i in range(0, len(hists), bsz)]
+
+    def one(ib):
+        i, b = ib
+        wd_, rc_, per_, asan_ = run_R(ctx, b, "main%d" % i)
+        rcs_, per_s_ = run_S(ctx, wd_, b, per_)
+        shutil.rmtree(wd_, ignore_errors=True)
+        return rc_, per_, asan_, rcs_, per_s_
+    from concurrent.futures import ThreadPoolExecutor
+    with ThreadPoolExecutor(max_workers=4) as ex:
+        results = list(ex.map(one, enumerate(batches)))
+    rc, per, asan, per_s = 0, {}, [], {}
+    for rc_, per_, asan_, rcs_, per_s_ in results:
+        if rcs_ != 0:
+            raise vc.BuildError("h4read failed rc=%d" % rcs_)
+        rc = rc or rc_
+        per.update(per_)
+        per_s.update(per_s_)
+        asan += asan_
+    wd = None
     tot = {}
     opmix, opfail = {}, {}
     nviol = 0
@@ -1120,7 +1140,6 @@ def run(ctx):
                    "# run: bin/check C02 --replay <this file>"] + small + ["# disagreements:"] + \
                   ["#   [%s] %s" % b for b in fb[:8]] + ["#   asan: " + a for a in asan2 if "ERROR" in a or "SUMMARY" in a][:4]
             ctx.violation("%s: %s" % fb[0], "\n".join(txt), found=True)
-    shutil.rmtree(wd, ignore_errors=True)
     ctx.corr("library~h4read", histories=len(hists), corpus_histories=len(corpus), op_mix=opmix,
              compared={k: v for k, v in tot.items() if k not in ("RE", "DM")},
              histories_matching_known_findings=known, harness_rc=rc, **opfail)
